@@ -31,6 +31,9 @@ type Ctx struct {
 	Tier string
 	Ctl  *Prog // control packages (engine positive controls)
 	CtlG *CG
+
+	imported  map[string]*Report // scratch reports of properties whose rules were adopted by another one
+	importing map[string]bool
 }
 
 var registry = map[string]*PropSpec{}
